@@ -795,7 +795,8 @@ func replayTokenizer(h []pstep, v int) {
 		if s.St.Com != "none" {
 			wantCom = comLen[comSQL]
 		}
-		if vs.CommentsLen != wantCom {
+		cancelledMidRun := s.Op == "CtxFire" && vs.CommentsLen <= wantCom // a run cancelled half-way has captured a prefix of the comments
+		if vs.CommentsLen != wantCom && !cancelledMidRun {
 			bad = append(bad, "comments")
 		}
 		if vs.Dialect != s.St.Dialect {
